@@ -217,7 +217,7 @@ def _run_check(mod, prop, tier, seed, replay, only, scratch, t_start):
                     mod.worker_init(w)
                 with open(scratch / f"log{w}.jsonl", "a") as f:
                     for idx in todo:
-                        f.write(json.dumps({"start": idx}) + "\n")
+                        f.write(json.dumps({"start": idx, "t0": time.time()}) + "\n")
                         f.flush()
                         rec = _run_one(mod, prop, seed, idx, tier)
                         f.write(json.dumps(rec) + "\n")
@@ -237,12 +237,31 @@ def _run_check(mod, prop, tier, seed, replay, only, scratch, t_start):
     dead_workers = []
     crashed_cases = []
     restarts = 0
+    hang_killed = set()
+    last_hang_scan = time.time()
+    hard_limit = 2 * getattr(mod, "CASE_TIMEOUT_S", CASE_TIMEOUT_S) + 60
     while pids:
         try:
             pid, status = os.waitpid(-1, os.WNOHANG)
         except ChildProcessError:
             break
         if pid == 0:
+            # hard watchdog: a case stuck inside native code never sees the SIGALRM of the per-case watchdog; the
+            # worker is killed and the case recorded as a (hard) timeout = inconclusive, the rest continues
+            if time.time() - last_hang_scan > 5:
+                last_hang_scan = time.time()
+                for p_, w_ in list(pids.items()):
+                    try:
+                        lines = (scratch / f"log{w_}.jsonl").read_text().splitlines()
+                        last = json.loads(lines[-1]) if lines else {}
+                    except (FileNotFoundError, json.JSONDecodeError):
+                        continue
+                    if "start" in last and time.time() - last.get("t0", time.time()) > hard_limit:
+                        hang_killed.add(p_)
+                        try:
+                            os.kill(p_, signal.SIGKILL)
+                        except ProcessLookupError:
+                            pass
             if time.time() > deadline:
                 for p in pids:
                     try:
@@ -272,11 +291,13 @@ def _run_check(mod, prop, tier, seed, replay, only, scratch, t_start):
         except FileNotFoundError:
             pass
         culprit = [i for i in started if i not in finished]
-        crashed_cases.extend((i, status) for i in culprit)
+        hung = pid in hang_killed
+        if not hung:
+            crashed_cases.extend((i, status) for i in culprit)
         with open(scratch / f"log{w}.jsonl", "a") as f:
             for i in culprit:
                 f.write(json.dumps({"idx": i, "fp": "", "nontrivial": False, "counters": {}, "violations": [],
-                                    "refusal": None, "skipped": f"worker-crash:status{status}", "sample": None,
+                                    "refusal": None, "skipped": "timeout" if hung else f"worker-crash:status{status}", "sample": None,
                                     "states": [], "t": 0}) + "\n")
         todo = [i for i in assigned[w] if i not in finished and i not in culprit]
         restarts += 1
